@@ -57,7 +57,7 @@ func itemsEqual(a, b []Item) string {
 }
 
 func runC08(c *mon.Ctx) {
-	n := c.Pick(150, 800)
+	n := c.Pick(150, 2000)
 	for i := int64(0); i < n; i++ {
 		if !c.Mine("streams", i) {
 			continue
